@@ -484,6 +484,97 @@ fn seed_bytes(seed: u64, property: &str, suite: &str, shard: u64) -> [u8; 32] {
     out
 }
 
+// ---------------------------------------------------------------------
+// non-termination monitor (for properties that promise termination)
+// ---------------------------------------------------------------------
+
+struct HangState {
+    property: String,
+    suite: String,
+    out_dir: String,
+    limit: std::time::Duration,
+    /// fixed replay path (replay mode) instead of a fresh failure file
+    replay_path: Option<String>,
+    slots: Vec<Option<(Instant, String)>>,
+}
+
+static HANG_ON: std::sync::atomic::AtomicBool = std::sync::atomic::AtomicBool::new(false);
+static HANG: Mutex<Option<HangState>> = Mutex::new(None);
+static HANG_SLOT_COUNTER: std::sync::atomic::AtomicUsize = std::sync::atomic::AtomicUsize::new(0);
+thread_local! {
+    static HANG_SLOT: usize = HANG_SLOT_COUNTER.fetch_add(1, std::sync::atomic::Ordering::Relaxed);
+}
+
+/// A case of `property` that runs longer than `limit_secs` is reported as a violation of its
+/// termination clause: the case is saved as a replay file, the VIOLATION line printed and the
+/// process exits with 1 (the spinning thread cannot be stopped otherwise).  Only enabled for
+/// properties whose statement promises termination, with a limit several orders of magnitude
+/// above the normal cost of a case.
+pub fn enable_hang_monitor(property: &str, suite: &str, verif_dir: &str, limit_secs: u64, replay_path: Option<String>) {
+    *HANG.lock().unwrap() = Some(HangState {
+        property: property.to_string(),
+        suite: suite.to_string(),
+        out_dir: out_dir(verif_dir),
+        limit: std::time::Duration::from_secs(limit_secs),
+        replay_path,
+        slots: vec![],
+    });
+    HANG_ON.store(true, std::sync::atomic::Ordering::SeqCst);
+    std::thread::spawn(move || loop {
+        std::thread::sleep(std::time::Duration::from_millis(500));
+        let g = HANG.lock().unwrap();
+        let Some(h) = g.as_ref() else { continue };
+        for sl in h.slots.iter().flatten() {
+            if sl.0.elapsed() > h.limit {
+                let msg = format!("the case did not return within {} s (cases of this suite normally take milliseconds): non-termination", h.limit.as_secs());
+                let path = match &h.replay_path {
+                    Some(p) => p.clone(),
+                    None => {
+                        let dir = format!("{}/replays/{}", h.out_dir, h.property);
+                        let _ = std::fs::create_dir_all(&dir);
+                        let path = format!("{dir}/fail-{}--hang-{:016x}.json", h.suite, hash_str(&sl.1));
+                        let case: Value = serde_json::from_str(&sl.1).unwrap_or(Value::Null);
+                        let body = json!({"property": h.property, "suite": h.suite, "message": msg, "case": case});
+                        let _ = std::fs::write(&path, serde_json::to_string_pretty(&body).unwrap_or_default());
+                        path
+                    }
+                };
+                println!("VIOLATION property={} replay={}", h.property, path);
+                println!("  suite={} message={}", h.suite, msg);
+                std::process::exit(1);
+            }
+        }
+    });
+}
+
+fn hang_enter<C: Serialize>(case: &C) {
+    if !HANG_ON.load(std::sync::atomic::Ordering::Relaxed) {
+        return;
+    }
+    let js = serde_json::to_string(case).unwrap_or_default();
+    let slot = HANG_SLOT.with(|s| *s);
+    let mut g = HANG.lock().unwrap();
+    if let Some(h) = g.as_mut() {
+        if h.slots.len() <= slot {
+            h.slots.resize(slot + 1, None);
+        }
+        h.slots[slot] = Some((Instant::now(), js));
+    }
+}
+
+fn hang_leave() {
+    if !HANG_ON.load(std::sync::atomic::Ordering::Relaxed) {
+        return;
+    }
+    let slot = HANG_SLOT.with(|s| *s);
+    let mut g = HANG.lock().unwrap();
+    if let Some(h) = g.as_mut() {
+        if slot < h.slots.len() {
+            h.slots[slot] = None;
+        }
+    }
+}
+
 /// Evaluate one case with panic capture, updating stats.  Returns Err(msg) on failure.
 pub fn eval_case<C: Serialize>(
     case: &C,
@@ -495,10 +586,12 @@ pub fn eval_case<C: Serialize>(
         // debugging aid for hangs: the last line of the log is the case that did not return
         eprintln!("CASE[{:?}] {}", std::thread::current().id(), serde_json::to_string(case).unwrap_or_default());
     }
+    hang_enter(case);
     let r = match catch(|| check(case, &mut ctx)) {
         Ok(r) => r,
         Err(p) => Err(format!("panic: {p}")),
     };
+    hang_leave();
     if let Some(st) = stats {
         st.evaluations += 1;
         st.sub_evals += ctx.sub_evals;
